@@ -50,6 +50,9 @@ def run_property(pid, tier='quick', overlay=None, write=True, quiet=False, repla
 def main(argv=None):
     import argparse
     import json
+    import signal
+    if hasattr(signal, 'SIGPIPE'):
+        signal.signal(signal.SIGPIPE, signal.SIG_DFL)   # a reader that closes the pipe (`| head`) ends the run quietly, not with a traceback
     ap = argparse.ArgumentParser(prog='check')
     ap.add_argument('prop')
     ap.add_argument('--tier', default=os.environ.get('VERIF_TIER', 'quick'), choices=['quick', 'thorough'])
